@@ -47,6 +47,8 @@ fn cfg(tier: Tier, index: u64) -> HistCfg {
         special_keys: false,
         default_table: false,
         big_table: None,
+        empty_mid: false,
+        empty_end: false,
     };
     rare_regions(&mut c, index);
     if c.prelude != Prelude::None {
